@@ -105,6 +105,7 @@ theorem goEquals_refl : ∀ (fuel : Nat) (ss : Schemas) (t : Ty) (a : GoVal),
       cases x <;> simp_all [unionEq]
       case union bs => exact eqBranches_refl ih fields bs hx.1 (by simpa [timesShared] using hxt)
     case alias t' => exact ih t' a h ht
+    case collPtr t' => simp only [Bool.and_eq_true, beq_self_eq_true, true_and]; exact ih t' a h ht
 
 /-! ### shape lemmas -/
 
@@ -287,6 +288,9 @@ theorem goEquals_trans : ∀ (fuel : Nat) (ss : Schemas) (t : Ty) (a b c : GoVal
       simp only [Bool.and_eq_true] at wx wy wz
       exact eqBranches_trans ih fields _ _ _ wx.1 wy.1 wz.1 nx ny h1 h2
     case alias t' => exact ih t' a b c ha hb hc na nb hab hbc
+    case collPtr t' =>
+      simp only [Bool.and_eq_true, beq_iff_eq] at hab hbc ⊢
+      exact ⟨hab.1.trans hbc.1, ih t' a b c ha hb hc na nb hab.2 hbc.2⟩
 
 /-! ### symmetry -/
 
@@ -417,5 +421,8 @@ theorem goEquals_symm : ∀ (fuel : Nat) (ss : Schemas) (t : Ty) (a b : GoVal),
       simp only [Bool.and_eq_true] at wx wy
       exact eqBranches_symm ih fields _ _ wx.1 wy.1 nx h
     case alias t' => exact ih t' a b ha hb na hab
+    case collPtr t' =>
+      simp only [Bool.and_eq_true, beq_iff_eq] at hab ⊢
+      exact ⟨hab.1.symm, ih t' a b ha hb na hab.2⟩
 
 end Cog.Sem.GoEq
